@@ -20,35 +20,37 @@ import (
 const modulePath = "github.com/cosi-project/runtime"
 
 type Engine struct {
-	repo    string
-	fset    *token.FileSet
-	prog    *ssa.Program
-	pkgs    []*packages.Package
-	pkgByPath map[string]*packages.Package
-	spkgs   map[string]*ssa.Package
-	lay     *Layouts
-	sy      *Symbols
-	ct      *Contracts
-	funcs   map[string]*ssa.Function // canonical key -> function
-	tids    map[string]int           // dynamic type ids
-	tidType map[int]types.Type
-	globals map[*ssa.Global]int64
-	fnIDs   map[*ssa.Function]int64
-	fnByID  map[int64]*ssa.Function
-	strLits map[string]*Term
-	strOrder []string
-	infos   map[*ssa.Function]*FuncInfo
-	axioms  []*Term
-	opts    Options
+	curFn        *ssa.Function // function under verification: its type parameters can be named in contract types
+	calleeFn     *ssa.Function // while a callee\'s contract is applied at a call site: its type parameters stand for the type arguments of the call
+	repo         string
+	fset         *token.FileSet
+	prog         *ssa.Program
+	pkgs         []*packages.Package
+	pkgByPath    map[string]*packages.Package
+	spkgs        map[string]*ssa.Package
+	lay          *Layouts
+	sy           *Symbols
+	ct           *Contracts
+	funcs        map[string]*ssa.Function // canonical key -> function
+	tids         map[string]int           // dynamic type ids
+	tidType      map[int]types.Type
+	globals      map[*ssa.Global]int64
+	fnIDs        map[*ssa.Function]int64
+	fnByID       map[int64]*ssa.Function
+	strLits      map[string]*Term
+	strOrder     []string
+	infos        map[*ssa.Function]*FuncInfo
+	axioms       []*Term
+	opts         Options
 	ghostGlobals map[string]int64
-	warnings []string
-	epochs   int
-	tu       *typeUniverse
-	withLemmas bool
-	pureBody   map[*ssa.Function]bool
-	cache      *proofCache
-	verifDir   string
-	localChecks int
+	warnings     []string
+	epochs       int
+	tu           *typeUniverse
+	withLemmas   bool
+	pureBody     map[*ssa.Function]bool
+	cache        *proofCache
+	verifDir     string
+	localChecks  int
 }
 
 type Options struct {
@@ -395,6 +397,34 @@ func (e *Engine) resolveType(expr string, pkgPath string) (types.Type, error) {
 		return types.Universe.Lookup("any").Type(), nil
 	case "mathint":
 		return types.Typ[types.UntypedInt], nil
+	}
+	// a type parameter of the callee whose contract is being applied: the type argument of this call
+	if cf := e.calleeFn; cf != nil {
+		gen := cf
+		if o := cf.Origin(); o != nil {
+			gen = o
+		}
+		targs := cf.TypeArgs()
+		for _, tps := range []*types.TypeParamList{gen.Signature.RecvTypeParams(), gen.Signature.TypeParams()} {
+			for i := 0; tps != nil && i < tps.Len(); i++ {
+				if tps.At(i).Obj().Name() == expr {
+					if i < len(targs) {
+						return targs[i], nil
+					}
+					return tps.At(i), nil
+				}
+			}
+		}
+	}
+	// a type parameter of the function under verification (or of the functions enclosing it)
+	for f := e.curFn; f != nil; f = f.Parent() {
+		for _, tps := range []*types.TypeParamList{f.Signature.RecvTypeParams(), f.Signature.TypeParams()} {
+			for i := 0; tps != nil && i < tps.Len(); i++ {
+				if tps.At(i).Obj().Name() == expr {
+					return tps.At(i), nil
+				}
+			}
+		}
 	}
 	// qualified or local name
 	pkgName, name := "", expr
